@@ -344,3 +344,4 @@ MANIFEST = {
              "differential runs); Literals.int_lexeme/parse_int_base0; the Go driver."),
     "ref": "DESIGN.md section 6, C05; notes/C05.md",
 }
+COQCHK_TIMEOUT = 600      # ArithProofs.v contains two kernel VM computations that coqchk re-checks with the lazy machine
